@@ -158,10 +158,14 @@ func (e *exec) runQuery(q Query, hold int) (out outcome) {
 		qry promql.Query
 		err error
 	)
+	var qopts promql.QueryOpts
+	if q.LB > 0 {
+		qopts = promql.NewPrometheusQueryOpts(false, time.Duration(q.LB)*time.Millisecond)
+	}
 	if q.Range {
-		qry, err = e.ng.NewRangeQuery(ctx, e.qa, nil, q.Q, time.UnixMilli(q.Start), time.UnixMilli(q.End), time.Duration(q.Step)*time.Millisecond)
+		qry, err = e.ng.NewRangeQuery(ctx, e.qa, qopts, q.Q, time.UnixMilli(q.Start), time.UnixMilli(q.End), time.Duration(q.Step)*time.Millisecond)
 	} else {
-		qry, err = e.ng.NewInstantQuery(ctx, e.qa, nil, q.Q, time.UnixMilli(q.Start))
+		qry, err = e.ng.NewInstantQuery(ctx, e.qa, qopts, q.Q, time.UnixMilli(q.Start))
 	}
 	if err != nil {
 		// a generated query must parse and type-check: anything else is a generator bug
